@@ -105,6 +105,16 @@ def run(chk: Check) -> None:
                                                          for c in ast.walk(i) if isinstance(c, ast.Call) and last_name(c) == 'startswith']
     ok = len(slices) == 1 and bool(sw) and all(norm(slices[0].slice.lower) == f'len({norm(c.args[0])})' and norm(slices[0].value) == norm(c.func.value) for c in sw)
     chk.ob('SEG-exact-matching', sn, ok, 'a matching rule is passed down with exactly the matched prefix removed', kind='strip-prefix')
+    # polarity: what is kept are the rules that DO start with the prefix
+    ffs = chk.ctx.facts.analyse(sn)
+    keep_ok = False
+    for c in calls_in_func(sn, 'append'):
+        keep_ok = all(any(a[0] == 'T' and 'startswith(' in a[1] for a in fs) for _, fs in ffs.site_facts(c))
+    for comp in [n for n in ast.walk(sn.node) if isinstance(n, (ast.ListComp, ast.GeneratorExp))]:
+        for g in comp.generators:
+            pos = [i for i in g.ifs for a in ffs.cond_atoms(i, True) if a[0] == 'T' and 'startswith(' in a[1]]
+            keep_ok = keep_ok or bool(pos)
+    chk.ob('SEG-exact-matching', sn, keep_ok, 'the rules kept for the sub-namespace are exactly those that start with its name plus the separator', kind='strip-keeps-matching')
     ffn = chk.ctx.facts.analyse(sn)
     rp = sn.params[2] if len(sn.params) > 2 else 'rules'
     rets_n = [n for n in ffn.cfg.nodes if n.kind == 'return']
@@ -112,9 +122,39 @@ def run(chk: Check) -> None:
         ('notnone', rp) in ffn.at(r) or ('none', rp) in ffn.at(r) for r in rets_n)
     chk.ob('SEG-exact-matching', sn, none_ok, '"no rules" stays "no rules" (None is not turned into an empty list)', kind='none-preserved')
     # skip / descend decisions
-    tests = {norm(t.ast.test): t for t in cfg.nodes if t.kind == 'test'}
-    ok = any(k == 'exclude and port_name in exclude' for k in tests) and any(k == 'include and port_name not in include' for k in tests)
-    chk.ob('SEG-exact-matching', ab, ok, 'a port is skipped exactly when it is excluded by name, or include rules exist and do not name it', kind='leaf-decisions')
+    # decision table over (exclude given, name excluded, include given, name included / a rule names the namespace, is a namespace): stored or skipped
+    from ..decisions import leaf as _leaf, paths_under as _paths, valuations as _vals
+    ffa = chk.ctx.facts.analyse(ab)
+    its = [m for m in ffa.cfg.nodes if m.kind == 'iter' and norm(m.ast.iter).endswith('.items()')]
+    anyc = [c for c in calls_in_func(ab) if isinstance(c.func, ast.Name) and c.func.id == 'any']
+    ok = len(its) == 1 and len(anyc) == 1
+    dev = []
+    n_rows = 0
+    if ok:
+        it = its[0]
+        tgt = [norm(x) for x in it.ast.target.elts] if isinstance(it.ast.target, ast.Tuple) else ['port_name', 'port']
+        nm, pt = tgt[0], tgt[1]
+        K = {k: _leaf(ffa, ast.parse(t_, mode='eval').body)[0] for k, t_ in (('ex', 'exclude'), ('inex', f'{nm} in exclude'), ('inc', 'include'), ('ininc', f'{nm} in include'),
+                                                                              ('ns', f'isinstance({pt}, PortNamespace)'))}
+        K['any'] = _leaf(ffa, anyc[0])[0]
+        stores = [m for m in ffa.cfg.nodes if m.kind == 'stmt' and isinstance(m.ast, ast.Assign) and isinstance(m.ast.targets[0], ast.Subscript) and norm(m.ast.targets[0]) == f'self[{nm}]']
+        starts = [t for t, l in it.succ if l not in ('exc', 'uncaught', 'handler') and it.id in ffa.cfg.reachable([t], edge_ok=no_exc)]
+        for val in _vals(list(K.values())):
+            v = {k: val[K[k]] for k in K}
+            if (v['inex'] and not v['ex']) or (v['ininc'] and not v['inc']) or (v['any'] and not v['inc']):
+                continue   # membership in an absent / empty rule list does not occur
+            skipped_by_rule = (v['ex'] and v['inex']) or (v['inc'] and not (v['any'] if v['ns'] else v['ininc']))
+            for st in starts:
+                for path in _paths(ffa, dict(val), start=st, frozen=['exclude', 'include', nm, pt] + sorted({x.id for x in ast.walk(anyc[0]) if isinstance(x, ast.Name)})):
+                    cut = path[:path.index(it)] if it in path else path
+                    if path[-1] is ffa.cfg.raise_exit and it not in path:
+                        continue
+                    stored = any(m in stores for m in cut)
+                    n_rows += 1
+                    if stored == skipped_by_rule:
+                        dev.append(({k: v[k] for k in v}, 'stored' if stored else 'skipped'))
+    chk.ob('SEG-exact-matching', ab, ok and not dev and n_rows >= 8, f'decision table ({n_rows} paths): a port is skipped exactly when it is excluded by name, or include rules exist and do not name it '
+           '(for a namespace: no rule is that name or starts with that name plus the separator); otherwise it is stored' + (f'; deviations {dev[:2]}' if dev else ''), kind='leaf-decisions')
     subs = [c for c in calls_in_func(ab, 'strip_namespace')]
     ok = len(subs) == 2 and sorted(norm(c.args[2]) for c in subs if len(c.args) >= 3) == ['exclude', 'include'] and all(norm(c.args[0]) == 'port_name' for c in subs)
     chk.ob('SEG-exact-matching', ab, ok, 'the rules handed down into a sub-namespace are those of that namespace, stripped', kind='rules-passed-down')
